@@ -340,8 +340,15 @@ structure LoopAttrs where
 /-- `a + b` on `u64` -/
 def u64Add (a b : Nat) : Chk Nat := if a + b < 18446744073709551616 then .ok (a + b) else .panic
 
+/-- `a.saturating_sub(b)` -/
+def usat (a b : Nat) : Nat := a - b
+
 /-- `idx` = the loop counter as `u64` (`!0` before the first item: every attribute is undefined),
-    `len` = `Some` for iterators with an exact size hint, `depth` = recursion depth of the loop -/
+    `len` = `Some` for iterators with an exact size hint, `depth` = recursion depth of the loop.
+    State space: `LoopState::next` bumps the counter *before* asking the iterator, so inside the body
+    `idx < len`, but an exhausted loop has `idx = len` — and the loop object can outlive its loop
+    (`{% set ns.l = loop %}`), so every `idx` has to be handled (an iterator whose size hint lies makes
+    any `idx` possible). -/
 def loopAttrsK (idx : Nat) (len : Option Nat) (depth : Nat) : Chk (Option LoopAttrs) :=
   if idx = 18446744073709551615 then pure none
   else do
@@ -353,8 +360,8 @@ def loopAttrsK (idx : Nat) (len : Option Nat) (depth : Nat) : Chk (Option LoopAt
           pure (idx == m)
     let d1 ← usizeN (depth + 1)                                  -- `self.depth + 1`
     pure (some { index0 := idx, index := index, length := len,
-                 revindex := len.map (· - idx),                  -- `saturating_sub`
-                 revindex0 := len.map (fun l => (l - idx) - 1),
+                 revindex := len.map (fun l => usat l idx),      -- `len.saturating_sub(idx)`
+                 revindex0 := len.map (fun l => usat (usat l idx) 1),
                  first := idx == 0, last := last, depth := d1, depth0 := depth })
 
 /-! ## `formatting.rs: apply_zero_padding` with a grouping option -/
@@ -445,6 +452,12 @@ def negStepLen (lo hi s : Int) : Chk Nat :=
 /-- `span.end_col += 1` on a `u16` -/
 def widen (startCol endCol : Nat) : Chk Nat :=
   if startCol = endCol then u16N (endCol + 1) else pure endCol
+
+/-- `revindex0` with plain subtraction (`len - idx - 1`): fine inside the body, underflows on the
+    exhausted loop object -/
+def revindex0Plain (idx len : Nat) : Chk Nat := do
+  let a ← usub len idx
+  usub a 1
 
 /-- `" ".repeat(width)`: `Vec::with_capacity(width)` panics above `isize::MAX`, otherwise the
     allocation is as large as the template says -/
